@@ -600,6 +600,9 @@ func (e *Exec) applyContract(st *State, fr *Frame, ci *callInfo, c *FuncContract
 			if i < len(ci.bind) && ci.bind[i].P != nil {
 				env.vars["&"+fv.Name()] = ci.bind[i]
 				env.vars[fv.Name()+"$ptr"] = ci.bind[i]
+				if _, shadow := env.vars[fv.Name()]; !shadow {
+					env.vars[fv.Name()] = e.loadPlace(st, ci.bind[i].P, nil)
+				}
 			}
 		}
 	}
